@@ -12,7 +12,7 @@
     lives exactly there). *)
 From Coq Require Import String Ascii NArith ZArith Bool List.
 From TV Require Import Common.Sched Fmt.JsonModel Fmt.JsonProofsRender Fmt.JsonProofsParse Fmt.JsonProofsMap Fmt.JsonProofsRecord.
-From TV Require Import Fmt.JsonConc Fmt.JsonConcProofs.
+From TV Require Import Fmt.JsonConc Fmt.JsonConcProofs Fmt.JsonWide.
 From TVGen Require Import Gen_json.
 Import ListNotations.
 Local Open Scope N_scope.
@@ -406,6 +406,50 @@ Theorem C14_lost_update_without_lock : forall c,
   ~ In (c_stored s) (race_outcomes c [] p1 p2).
 Proof. exact lost_update. Qed.
 Print Assumptions C14_lost_update_without_lock.
+
+(** ** 128-bit integer fields (u128 / i128): written as a JSON string whose content is exactly the decimal numeral of the
+    value ('-' first for negatives), identically in event fields and in span fields (at creation and in later records: span
+    fields all go through [span_value]); the strict parser reads the token back as that string and the numeral denotes
+    exactly the recorded value — for every u128 / i128 (the range hypothesis is not even needed).  The switches
+    [serde_u128_native] / [serde_i128_native] are read off tracing-serde's source on every run: if SerdeMapVisitor starts
+    handing 128-bit values to the serializer as numbers these theorems stop compiling (seeded change C14-I). *)
+Theorem C14_wide_integer_unsigned : forall n rest, n < 2 ^ 128 ->
+  event_value (VU128 n) = span_value (VU128 n) /\
+  exists s, parse_value 1 (render (event_value (VU128 n)) ++ rest) = Some (JStr s, rest) /\ numeral_Z s = Z.of_N n.
+Proof. exact wide_unsigned_faithful. Qed.
+Print Assumptions C14_wide_integer_unsigned.
+
+Theorem C14_wide_integer_signed : forall z rest, (- 2 ^ 127 <= z < 2 ^ 127)%Z ->
+  event_value (VI128 z) = span_value (VI128 z) /\
+  exists s, parse_value 1 (render (event_value (VI128 z)) ++ rest) = Some (JStr s, rest) /\ numeral_Z s = z.
+Proof. exact wide_signed_faithful. Qed.
+Print Assumptions C14_wide_integer_signed.
+
+Theorem C14_wide_integer_is_its_numeral :
+  (forall n, event_value (VU128 n) = JStr (dec_N n) /\ span_value (VU128 n) = JStr (dec_N n) /\ numeral_Z (dec_N n) = Z.of_N n) /\
+  (forall z, event_value (VI128 z) = JStr (dec_Z z) /\ span_value (VI128 z) = JStr (dec_Z z) /\ numeral_Z (dec_Z z) = z).
+Proof.
+  split; intro x; (split; [apply wide_event_value | split; [apply wide_span_value |]]);
+    [apply numeral_dec_N | apply numeral_dec_Z].
+Qed.
+Print Assumptions C14_wide_integer_is_its_numeral.
+
+(** non-vacuity: i128::MIN as an event field is the 40-byte string "-170141183460469231731687303715884105728" *)
+Example C14_wide_integer_example :
+  render (event_value (VI128 (- 2 ^ 127))) =
+    34 :: 45 :: map (fun d => 48 + d) [1;7;0;1;4;1;1;8;3;4;6;0;4;6;9;2;3;1;7;3;1;6;8;7;3;0;3;7;1;5;8;8;4;1;0;5;7;2;8] ++ [34] /\
+  (- 2 ^ 127 <= - 2 ^ 127 < 2 ^ 127)%Z.
+Proof. split; [vm_compute; reflexivity | split; [apply Z.le_refl | reflexivity]]. Qed.
+
+(** a bare number instead (what a native serde 128-bit override prints): 2^127 + 1 has 39 digits; a binary64 reader
+    ([b64_of_N]: round to nearest, ties to even) holds 2^127, not the recorded value *)
+Theorem C14_bare_wide_number_refuted :
+  let n := 2 ^ 127 + 1 in
+  n < 2 ^ 128 /\ render (JInt (Z.of_N n)) = dec_N n /\ length (dec_N n) = 39%nat /\
+  b64_of_N n = 2 ^ 127 /\ b64_of_N n <> n /\ numeral_Z (dec_N n) = Z.of_N n /\
+  b64_of_N (2 ^ 53) = 2 ^ 53 /\ b64_of_N (2 ^ 53 + 1) = 2 ^ 53.
+Proof. exact bare_wide_number_lossy. Qed.
+Print Assumptions C14_bare_wide_number_refuted.
 
 (** ** The model has the shape the translator reads off the source (key order, trailing newline, which Visit methods the
     two visitors override, where `r#` is stripped, root-first iteration); nothing was unrecognised. *)
